@@ -26,7 +26,7 @@ var fdFormulas = []fdFormula{
 	{"Central2nd", fd.Central2nd, 2, 3},
 }
 
-var fdSteps = []float64{1, 0.5, 2}
+var fdSteps = []float64{1, 0.5, 2, 0.25, 4}
 
 // withProcs raises GOMAXPROCS for a case that asks for concurrent evaluation: the driver runs
 // the workers with GOMAXPROCS=1, for which diff/fd silently falls back to the serial code.
@@ -62,7 +62,7 @@ func monomialDeriv(x float64, d, k int) float64 {
 func genFDDerivative(g *vlib.G) {
 	for _, fm := range fdFormulas {
 		for _, h := range fdSteps {
-			for _, x0 := range []float64{0, 1, -2, 0.5, 3} {
+			for _, x0 := range []float64{0, 1, -2, 0.5, 3, -0.75, 10.25} {
 				for _, ok := range []bool{false, true} {
 					for _, conc := range []bool{false, true} {
 						fm, h, x0, ok, conc := fm, h, x0, ok, conc
@@ -236,10 +236,15 @@ func (p *poly) hess(x []float64) [][]float64 {
 	return h
 }
 
-func fdPoint(n int) []float64 {
+// fdPoint returns the evaluation point: coordinates >= 2 (so that the truncation terms of the
+// one-sided formulas keep one sign for every step <= 4, see newPoly); variant 1 uses quarter offsets.
+func fdPoint(n, variant int) []float64 {
 	x := make([]float64, n)
 	for i := range x {
-		x[i] = float64(1 + (2*i+1)%3)
+		x[i] = float64(2 + (2*i+1)%3)
+		if variant == 1 {
+			x[i] += 0.25 * float64(i%4)
+		}
 	}
 	return x
 }
@@ -285,7 +290,7 @@ func settingsFor(fm fdFormula, h float64, known, conc bool, origin float64) *fd.
 }
 
 func genFDMulti(g *vlib.G) {
-	maxDim := vlib.Pick(g, 6, 8)
+	maxDim := 8
 	for n := 1; n <= maxDim; n++ {
 		for _, fm := range fdFormulas {
 			for _, h := range fdSteps {
@@ -312,9 +317,17 @@ func genFDMulti(g *vlib.G) {
 
 // fdFirstOrderCase checks Gradient, Jacobian, Hessian and CrossLaplacian with an order-1 formula.
 func fdFirstOrderCase(t *vlib.T, n int, fm fdFormula, h float64, known, conc bool) {
-	x0 := fdPoint(n)
+	for fam := 0; fam < 8; fam++ {
+		for pv := 0; pv < 2; pv++ {
+			fdFirstOrderFamily(t, n, fm, h, known, conc, 7*fam, pv)
+		}
+	}
+}
+
+func fdFirstOrderFamily(t *vlib.T, n int, fm fdFormula, h float64, known, conc bool, fam, pv int) {
+	x0 := fdPoint(n, pv)
 	for deg := 1; deg <= 3; deg++ {
-		p := newPoly(n, deg, deg+n)
+		p := newPoly(n, deg, deg+n+fam)
 		poison := known && usesOrigin(fm.f)
 		f := guardedF(p, x0, poison)
 		// Gradient: exact iff every variable has degree <= fm.exact.
@@ -339,7 +352,7 @@ func fdFirstOrderCase(t *vlib.T, n int, fm fdFormula, h float64, known, conc boo
 		t.Count("fd_evaluations", 2)
 
 		// Jacobian of (p, p2, p3): rows are the gradients of the components.
-		comps := []*poly{p, newPoly(n, deg, deg+n+1), newPoly(n, deg, deg+n+2)}
+		comps := []*poly{p, newPoly(n, deg, deg+n+fam+1), newPoly(n, deg, deg+n+fam+2)}
 		m := len(comps)
 		F := func(y, x []float64) {
 			for k, c := range comps {
@@ -356,8 +369,18 @@ func fdFirstOrderCase(t *vlib.T, n int, fm fdFormula, h float64, known, conc boo
 				js.OriginValue[k] = c.eval(x0)
 			}
 		}
-		jac := mat.NewDense(m, n, poisoned(m*n))
+		// dst is a window of a larger NaN-filled matrix: nothing outside it may be written.
+		bigJ := mat.NewDense(m+2, n+3, poisoned((m+2)*(n+3)))
+		jac := bigJ.Slice(1, 1+m, 2, 2+n).(*mat.Dense)
 		fd.Jacobian(jac, F, xin, js)
+		for i := 0; i < m+2; i++ {
+			for j := 0; j < n+3; j++ {
+				inside := i >= 1 && i < 1+m && j >= 2 && j < 2+n
+				if !inside && !math.IsNaN(bigJ.At(i, j)) {
+					t.Failf("Jacobian wrote outside its dst window at (%d,%d): %v", i-1, j-2, bigJ.At(i, j))
+				}
+			}
+		}
 		for k, c := range comps {
 			row := mat.Row(nil, k, jac)
 			wantRow := c.grad(x0)
@@ -378,14 +401,32 @@ func fdFirstOrderCase(t *vlib.T, n int, fm fdFormula, h float64, known, conc boo
 		// Hessian: Forward/Backward exact for total degree <= 2, Central for <= 3.
 		hexact := deg <= fm.exact+1
 		wantH := p.hess(x0)
-		for variant := 0; variant < 2; variant++ {
+		var bigH, reused *mat.SymDense
+		for variant := 0; variant < 4; variant++ {
 			var dst *mat.SymDense
-			if variant == 0 {
+			switch variant {
+			case 0: // empty receiver
 				dst = &mat.SymDense{}
-			} else {
+			case 1: // NaN-filled receiver of the right size
 				dst = mat.NewSymDense(n, poisoned(n*n))
+				reused = dst
+			case 2: // the receiver of the previous call, holding its result
+				dst = reused
+			case 3: // a window of a larger NaN-filled matrix
+				bigH = mat.NewSymDense(n+2, poisoned((n+2)*(n+2)))
+				dst = bigH.SliceSym(1, 1+n).(*mat.SymDense)
 			}
 			fd.Hessian(dst, f, xin, settingsFor(fm, h, known, conc, p.eval(x0)))
+			if variant == 3 {
+				for i := 0; i < n+2; i++ {
+					for j := i; j < n+2; j++ {
+						inside := i >= 1 && i < 1+n && j >= 1 && j < 1+n
+						if !inside && !math.IsNaN(bigH.At(i, j)) {
+							t.Failf("Hessian wrote outside its dst window at (%d,%d): %v", i-1, j-1, bigH.At(i, j))
+						}
+					}
+				}
+			}
 			if r, _ := dst.Dims(); r != n {
 				t.Failf("Hessian dst has dimension %d, want %d", r, n)
 				continue
@@ -408,11 +449,11 @@ func fdFirstOrderCase(t *vlib.T, n int, fm fdFormula, h float64, known, conc boo
 		if !sameSlice(xin, x0) {
 			t.Failf("Hessian modified x: %v", xin)
 		}
-		t.Count("fd_evaluations", 2)
+		t.Count("fd_evaluations", 4)
 
 		// CrossLaplacian of a polynomial in (x,y): sum_i d2/dx_i dy_i = sum_i H[i][n+i].
-		pz := newPoly(2*n, deg, deg+n+3)
-		z0 := fdPoint(2 * n)
+		pz := newPoly(2*n, deg, deg+n+fam+3)
+		z0 := fdPoint(2*n, pv)
 		xa := append([]float64(nil), z0[:n]...)
 		ya := append([]float64(nil), z0[n:]...)
 		fz := func(x, y []float64) float64 {
@@ -444,9 +485,17 @@ func fdFirstOrderCase(t *vlib.T, n int, fm fdFormula, h float64, known, conc boo
 // fdLaplacianCase checks Laplacian with an order-2 formula against the trace of the analytic
 // Hessian and against the trace of fd.Hessian (Central, which is exact up to degree 3).
 func fdLaplacianCase(t *vlib.T, n int, fm fdFormula, h float64, known, conc bool) {
-	x0 := fdPoint(n)
+	for fam := 0; fam < 8; fam++ {
+		for pv := 0; pv < 2; pv++ {
+			fdLaplacianFamily(t, n, fm, h, known, conc, 7*fam, pv)
+		}
+	}
+}
+
+func fdLaplacianFamily(t *vlib.T, n int, fm fdFormula, h float64, known, conc bool, fam, pv int) {
+	x0 := fdPoint(n, pv)
 	for deg := 1; deg <= 3; deg++ {
-		p := newPoly(n, deg, deg+n)
+		p := newPoly(n, deg, deg+n+fam)
 		f := guardedF(p, x0, known && usesOrigin(fm.f))
 		xin := append([]float64(nil), x0...)
 		wantH := p.hess(x0)
@@ -535,7 +584,7 @@ func genFDScribble(g *vlib.G) {
 						defer withProcs(conc)()
 						t.Nontrivial()
 						n := 3
-						x0 := fdPoint(n)
+						x0 := fdPoint(n, 1)
 						p := newPoly(n, 2, 5)
 						scribble := func(x []float64) float64 {
 							v := p.eval(x)
